@@ -379,7 +379,7 @@ func c08Recipients(p *Program, r *Report) {
 // decisionEdges: branch edges of fn on which decision.<pred>() is true / false.
 func decisionEdges(g *IG, pred string) (tr, fa map[edge]bool) {
 	tr, fa = map[edge]bool{}, map[edge]bool{}
-	for _, ifi := range ifsOf(g.Fn) {
+	for _, ifi := range g.ifs() {
 		for _, outcome := range []bool{true, false} {
 			f, ok := condFact(ifi.Cond, outcome)
 			if !ok || !f.Bool {
